@@ -231,9 +231,24 @@ func (s *backendStorageEtcd) EtcdKeyUpdated(client *EtcdClient, key string, data
 	}
 
 	if !replaced {
-		// New backend, add to list.
+		// New backend, add to list. The entries of a host are kept ordered by
+		// key, which is the order they are received in on startup: the first
+		// matching entry wins on lookup, so the order must not depend on the
+		// history of updates.
 		log.Printf("Added backend %s (from %s)", info.Url, key)
-		s.backends[host] = append(entries, backend)
+		newEntries := make([]*Backend, 0, len(entries)+1)
+		inserted := false
+		for _, entry := range entries {
+			if !inserted && key < entry.id {
+				newEntries = append(newEntries, backend)
+				inserted = true
+			}
+			newEntries = append(newEntries, entry)
+		}
+		if !inserted {
+			newEntries = append(newEntries, backend)
+		}
+		s.backends[host] = newEntries
 		updateBackendStats(backend)
 		statsBackendsCurrent.Inc()
 	}
